@@ -160,49 +160,7 @@ def r2(ctx, rule='C05.R2'):
                 key, sorted(direct)), where(body))
         else:
             ctx.ok(R, '%s obtains its Board only from other constructors (no literal, no field write)' % key, where(body))
-    ctx.floor(R, 'public Board constructors from non-Board data (besides the gate)', n, 4)
-
-
-class _Sub:
-    """collects the findings of another rule set so that selected rules can be re-labelled"""
-
-    def __init__(self, ctx, mapping):
-        self.ctx = ctx
-        self.mapping = mapping
-
-    def __getattr__(self, name):
-        return getattr(self.ctx, name)
-
-    def _m(self, rule):
-        return self.mapping.get(rule)
-
-    def ok(self, rule, desc, where=''):
-        if self._m(rule):
-            self.ctx.ok(self._m(rule), desc, where)
-
-    def instance(self, rule, desc, where=''):
-        if self._m(rule):
-            self.ctx.instance(self._m(rule), desc, where)
-
-    def violation(self, rule, key, msg, where=''):
-        if self._m(rule):
-            self.ctx.violation(self._m(rule), key, msg, where)
-
-    def inconclusive(self, rule, reason):
-        if self._m(rule):
-            self.ctx.inconclusive(self._m(rule), reason)
-
-    def bulk(self, rule, total, discharged):
-        if self._m(rule):
-            self.ctx.bulk(self._m(rule), total, discharged)
-
-    def floor(self, rule, what, count, minimum):
-        if self._m(rule):
-            return self.ctx.floor(self._m(rule), what, count, minimum)
-        return True
-
-    def note(self, s):
-        pass
+    ctx.floor(R, 'public Board constructors from non-Board data (besides the gate)', n, 3)
 
 
 def r34(ctx):
@@ -213,7 +171,7 @@ def r34(ctx):
     from . import c02
     from ..bb import bb
     bb(('unit',), ctx.an())
-    sub = _Sub(ctx, {'C02.R5': 'C05.R3', 'C02.R7': 'C05.R4', 'C02.R8': 'C05.R4'})
+    sub = Sub(ctx, {'C02.R5': 'C05.R3', 'C02.R7': 'C05.R4', 'C02.R8': 'C05.R4'})
     sn = c02.summary(sub, c02.MN, 'C02.R5')
     if sn is not None:
         c02.r48(sub, sn)
